@@ -8,6 +8,7 @@ Clauses (Fail.clause):
   members / deleted-gone     member sets at every level equal the model's (identity of the inserted objects);
                              a deleted path raises KeyError through every key form and both lookup APIs
   parent                     member.parent is its container (top-level: member.modules_collection is the collection)
+  collection                 every object reachable from a collection reports that collection as modules_collection (two collections)
   retrievable                collection.get_member(obj.path) is obj for every object and alias in the tree
   lookup-forms               dotted == tuple == chained lookup, get_member and [], from every ancestor
   lookup-through-alias       for every in-tree alias whose (completely resolved) chain ends at a module/class F, every member name of F
@@ -43,6 +44,7 @@ RULE = (
 )
 ASSUMPTIONS = [
     "the tree is a tree: a value is inserted at one place at a time (fresh object, or a subtree detached earlier by delete/replace)",
+    "two ModulesCollections exist; a subtree detached from one may be re-inserted into the other (moving a module between collections is a deletion on one collection and an insertion on another, both through the API the property names)",
     "the key's last part equals the value's name (otherwise obj.path cannot lead back to the object); the collection holds modules only, classes hold no modules, functions/attributes hold nothing",
     "mutation paths go through modules/classes only: setting or deleting *through* an alias or a function is not generated; lookups through alias paths (the read side) are checked after every step",
     "alias registry clause: for an alias whose target is an alias, `target.aliases` is the registry of the chain's final target; it is evaluated when every link is already resolved (links followed by identity, nothing is resolved by the check, rings by path are skipped exactly as Alias.final_target rejects them) and while no later step mutated the tree or re-targeted an alias since the outer alias was attached / re-targeted (Griffe registers an outer alias once, at that moment; see findings/C16.md 5)",
